@@ -150,7 +150,10 @@ def worker_main(args) -> int:
         seed = derive(args.base_seed, args.prop, i)
         rng = random.Random(seed)
         try:
-            scn = mod.gen(rng, args.tier)
+            if hasattr(mod, "gen_indexed"):
+                scn = mod.gen_indexed(i, rng, args.tier)  # lets a module enumerate a finite sub-space by index
+            else:
+                scn = mod.gen(rng, args.tier)
         except Exception:  # pylint: disable=broad-except
             out.write(json.dumps({"i": i, "seed": seed, "harness_error": traceback.format_exc()[-3000:]}) + "\n")
             continue
